@@ -246,6 +246,13 @@ MACRO_FN = {
 EXPR_WRAPPERS = {
     # str byte slicing has no Verus specification; std panics unless 1 is a char boundary
     ('parse_terms.rs::parse_term', '&s[1..]'): 'str_skip_first_byte(s)',
+    # String += &str has no usable Verus specification (AddAssignSpec cannot be implemented for String);
+    # format!("{}", term) is Display, kept uninterpreted (spec disp)
+    ('built_in_join.rs::evaluate_join', 'let s = format!("{}", term);'): 'let s = disp_term(&term);',
+    ('built_in_join.rs::evaluate_join', 'out += &format!(" {}", &s);'): 'str_append_spaced(&mut out, &s);',
+    ('built_in_join.rs::evaluate_join', 'out += &s;'): 'str_append(&mut out, &s);',
+    # atom!(out) is Unifiable::Atom(out.to_string()); ToString for String is the blanket impl over Display (no specification possible)
+    ('built_in_join.rs::evaluate_join', 'atom!(out)'): 'atom_of_string(&out)',
 }
 
 
